@@ -26,12 +26,30 @@ from vclock11 import VClock
 ID = 'C11'
 KERNELS = ['Gen/Window.v: win_guard', 'Gen/Window.v: win_trim_cond', 'Gen/Window.v: win_counter_next',
            'Gen/Window.v: win_skip', 'Gen/Window.v: win_step_order', 'Gen/Window.v: win_counter_init/dstream_time_init',
-           'Gen/Window.v: st_guard/tr_guard/src_guard', 'Gen/Window.v: tr_step_order/st_step_order/st_state_index_from_end']
+           'Gen/Window.v: st_guard/tr_guard/src_guard', 'Gen/Window.v: tr_step_order/st_step_order/st_state_index_from_end', 'Gen/Window.v: tw_guard/tw_step_order']
 SHARD = 250
 
-WINDOW, COUNT, STATE, BOTH, COUNT_STATE = 0, 1, 2, 3, 4
-KIND_NAMES = ['window', 'countByWindow', 'updateStateByKey', 'window+updateStateByKey', 'countByWindow+updateStateByKey']
-U_NAMES = ['sum', 'last', 'count', 'append', 'history', 'idle', 'decay', 'reset', 'minopt']
+WINDOW, COUNT, STATE, BOTH, COUNT_STATE, WIN_OVER, COUNT_OVER = 0, 1, 2, 3, 4, 5, 6
+KIND_NAMES = ['window', 'countByWindow', 'updateStateByKey', 'window+updateStateByKey', 'countByWindow+updateStateByKey',
+              'window-over', 'countByWindow-over']
+# parents of a window over a derived stream (case component pv)
+PV_NAMES = ['map', 'filter', 'flatMap', 'mapValues', 'updateStateByKey', 'union', 'transform']
+PV_KEYED = (3, 4)
+U_NAMES = ['sum', 'last', 'count', 'append', 'history', 'idle', 'decay', 'reset', 'minopt', 'first', 'concat']
+
+
+def INC(x):
+    return x + 1 if type(x) is int else x
+
+
+def EVEN(x):
+    return type(x) is int and x % 2 == 0
+
+
+def DUP(x):
+    return [x, x]
+
+
 def _minopt(vs, s):
     cand = [v for v in vs if v is not None] + ([s] if s is not None else [])
     return min(cand) if cand else None
@@ -50,6 +68,9 @@ U = [
     # these return None: a None state is a state, the key stays in the state RDD
     lambda vs, s: None if not vs else (s or 0) + len(vs),        # reset to None when the key is absent
     _minopt,                                                     # smallest non-None value so far, None while there is none
+    # order-sensitive (next to last, append, history)
+    lambda vs, s: s if s is not None else (vs[0] if vs else None),                          # first value ever seen
+    lambda vs, s: (s or '') + ''.join(chr(97 + (v + 5) % 26) for v in vs if v is not None),    # string concatenation
 ]
 NU = len(U)
 
@@ -67,15 +88,62 @@ ASSUMPTIONS = [
     'elements of keyed batches are (small int key, int-or-None value) pairs; the iteration order of the key set in '
     'RDD.cogroup is unspecified, so state RDDs are compared sorted by key',
     'exceptions raised inside the tick callback end that interval only (as tornado.ioloop.PeriodicCallback does)',
+    'a window over the state stream is compared as emitted: CPython iterates set(d_self) | set(d_other) of the keys 0..3 in '
+    'ascending order, which is the order of the model (the oracle itself only uses what the parent stream emitted)',
+    'queue entries that are RDDs (sc.parallelize(data, n) [.map | .filter], n = 1..4, also n > len(data)): the model holds '
+    'their collect(); count() is only applied to a window\'s union',
 ]
 TRUSTED = ['translator/kernels/c11.py (guards, slide counter update, trimming condition, skip test, statement order, '
            'initial values of WindowedDStream)', 'py/vclock11.py (virtual clock: fake PeriodicCallback + clock object)']
 
-CLASS_CODE = {_ds.DStream: 0, _ds.TransformedDStream: 1, _ds.WindowedDStream: 2, _ds.StatefulDStream: 3}
+CLASS_CODE = {_ds.DStream: 0, _ds.TransformedDStream: 1, _ds.WindowedDStream: 2, _ds.StatefulDStream: 3,
+              _ds.TransformedWithDStream: 4}
+
+
+def _unpack(c):
+    """(kind, w, s, ucode, k, batches, times, pv): pv (parent variant of kinds 5/6) defaults to 0."""
+    return tuple(c) + (0,) if len(c) == 7 else tuple(c)
+
+
+def _is_rdd_entry(e):
+    """A queue entry is a plain list, or (form, n, data): an RDD sc.parallelize(data, n) [.map(INC) | .filter(EVEN)]."""
+    return isinstance(e, tuple)
+
+
+def _entry_data(e):
+    """What the interval's RDD holds, in partition order then position."""
+    if not _is_rdd_entry(e):
+        return list(e)
+    form, _, data = e
+    if form == 1:
+        return [INC(x) for x in data]
+    if form == 2:
+        return [x for x in data if EVEN(x)]
+    return list(data)
+
+
+def _entry_queue_item(sc, e):
+    if not _is_rdd_entry(e):
+        return list(e)
+    form, n, data = e
+    rdd = sc.parallelize(list(data), n)
+    if form == 1:
+        rdd = rdd.map(INC)
+    elif form == 2:
+        rdd = rdd.filter(EVEN)
+    return rdd
 
 
 def kind(c):
-    return f'{KIND_NAMES[c[0]]}' + (f'/{U_NAMES[c[3]]}' if c[0] in (STATE, BOTH, COUNT_STATE) else '') + f'/k{c[4]}'
+    knd, w, s, uc, k, batches, times, pv = _unpack(c)
+    name = KIND_NAMES[knd]
+    if knd in (WIN_OVER, COUNT_OVER):
+        name += '/' + PV_NAMES[pv]
+    if knd in (STATE, BOTH, COUNT_STATE) or (knd in (WIN_OVER, COUNT_OVER) and pv == 4):
+        name += '/' + U_NAMES[uc]
+    if any(_is_rdd_entry(e) for e in batches):
+        name += '/rdd-entries'
+    return name + f'/k{k}'
 
 
 def _capture(log, j, keyed):
@@ -99,13 +167,13 @@ def _durations(c):
 
 
 def impl(c):
-    knd, w, s, uc, k, batches, times = c
+    knd, w, s, uc, k, batches, times, pv = _unpack(c)
     d, wd, sd = _durations(c)
     with VClock() as vc:
         sc = pysparkling.Context()
         ssc = StreamingContext(sc, d)
         log = []
-        src = ssc.queueStream([list(b) for b in batches])
+        src = ssc.queueStream([_entry_queue_item(sc, b) for b in batches])
         if knd == WINDOW:
             x = src.window(wd, sd)
             for j in range(k):
@@ -125,6 +193,27 @@ def impl(c):
             e = src.updateStateByKey(U[uc])
             for j in range(k):
                 e.foreachRDD(_capture(log, k + j, True))
+        elif knd in (WIN_OVER, COUNT_OVER):
+            if pv == 0:
+                parent = src.map(INC)
+            elif pv == 1:
+                parent = src.filter(EVEN)
+            elif pv == 2:
+                parent = src.flatMap(DUP)
+            elif pv == 3:
+                parent = src.mapValues(INC)
+            elif pv == 4:
+                parent = src.updateStateByKey(U[uc])
+            elif pv == 5:
+                parent = src.union(ssc.queueStream([_entry_queue_item(sc, b) for b in batches[1:]]))
+            elif pv == 6:
+                parent = src.transform(lambda rdd: rdd.map(INC))
+            else:
+                raise ValueError('pv')
+            x = parent.window(wd, sd) if knd == WIN_OVER else parent.countByWindow(wd, sd)
+            for j in range(k):
+                x.foreachRDD(_capture(log, j, False))
+            parent.foreachRDD(_capture(log, k, False))      # what the parent emits, as emitted
         else:
             raise ValueError('kind')
         ssc.start()
@@ -154,8 +243,9 @@ def _intervals(times):
 
 
 def _batch(batches, n):
-    """The batch of interval n (1-based); an exhausted queue yields nothing."""
-    return list(batches[n - 1]) if n - 1 < len(batches) else []
+    """The batch of interval n (1-based), in the order of the interval's RDD (partition order, then position); an
+    exhausted queue yields nothing."""
+    return _entry_data(batches[n - 1]) if n - 1 < len(batches) else []
 
 
 def _window_expected(batches, w, n):
@@ -179,10 +269,59 @@ def _of(entries, j):
     return [c for (jj, c) in entries if jj == j]
 
 
+def _oracle_over(c, r):
+    """window / countByWindow over a derived stream: at every emitting interval the window holds exactly the in-order
+    concatenation of the parent's most recent w batches AS THE PARENT EMITTED THEM (consumer k captures the parent)."""
+    knd, w, s, uc, k, batches, times, pv = _unpack(c)
+    _, ticks = r
+    site = KIND_NAMES[knd] + ':' + PV_NAMES[pv]
+    parent = {}    # interval -> what the parent emitted
+    prev = {}
+    for (entries, err), n in zip(ticks, _intervals(times)):
+        if n is None:
+            continue
+        got_p = _of(entries, k)
+        if len(got_p) != 1 or got_p[0] is None:
+            return (f'{site}:parent-not-served', f'interval {n}: the consumer of the parent stream captured {got_p!r}'
+                    + (f'; callback raised {err}' if err else ''))
+        parent[n] = got_p[0]
+        if pv == 4:
+            want = _state_expected(batches, uc, n)
+            if sorted(parent[n], key=lambda kv: kv[0]) != want:
+                return (f'updateStateByKey:state:{U_NAMES[uc]}', f'interval {n}: the state stream emitted {parent[n]!r}, expected {want!r}')
+        for j in range(k):
+            got = _of(entries, j)
+            if n % s == 0:
+                win = [x for i in range(max(1, n - w + 1), n + 1) for x in parent[i]]
+                if knd == COUNT_OVER:
+                    # only a union of two exhausted queue sources is an EmptyRDD, whose count() is empty
+                    all_exhausted = pv == 5 and n - min(w, n) >= len(batches)
+                    ok = got == [[len(win)]] or (all_exhausted and got == [[]])
+                    want = [len(win)]
+                else:
+                    ok = got == [win]
+                    want = win
+                if not ok:
+                    return (f'{site}:emission:' + ('slide>1' if s > 1 else 'slide=1'),
+                            f'interval {n} (w={w}, s={s}, consumer {j} of {k}): captured {got!r}, expected one capture {want!r} '
+                            f'= the parent\'s last {min(w, n)} batches {[parent[i] for i in range(max(1, n - w + 1), n + 1)]!r}'
+                            + (f'; callback raised {err}' if err else ''))
+                prev[j] = got[0]
+            elif j not in prev:
+                if any(x is not None for x in got):
+                    return (f'{site}:early-emission', f'interval {n} (w={w}, s={s}): captured {got!r} before interval {s}')
+            elif got and got != [prev[j]]:
+                return (f'{site}:changed-between-emissions',
+                        f'interval {n} (w={w}, s={s}, consumer {j}): captured {got!r}, last emission was {prev[j]!r}')
+    return None
+
+
 def oracle(c, r):
-    knd, w, s, uc, k, batches, times = c
+    knd, w, s, uc, k, batches, times, pv = _unpack(c)
     if isinstance(r, Err):
         return (f'{KIND_NAMES[knd]}:harness-error:{r.name}', 'the program could not be run')
+    if knd in (WIN_OVER, COUNT_OVER):
+        return _oracle_over(c, r)
     _, ticks = r
     iv = _intervals(times)
     site = KIND_NAMES[knd]
@@ -231,7 +370,7 @@ def oracle(c, r):
 
 
 def nontrivial(c, r):
-    return len(c[6]) >= 2 and any(len(b) > 0 for b in c[5])
+    return len(c[6]) >= 2 and any(len(_entry_data(b)) > 0 for b in c[5])
 
 
 # ---------------------------------------------------------------------------------------------------------------
@@ -266,12 +405,50 @@ def _keyed_batches(rng, n):
     return out
 
 
+def _as_rdd_entries(rng, batches, keyed):
+    """Some queue entries become RDDs with several partitions (also more partitions than elements); entries of plain
+    batches may also be derived RDDs (rdd.map / rdd.filter)."""
+    out = []
+    for b in batches:
+        if isinstance(b, tuple):
+            out.append(b)
+        elif rng.random() < 0.4:
+            form = 0 if keyed else rng.choice([0, 0, 1, 2])
+            out.append((form, rng.randint(1, 4) if b else rng.randint(2, 3), b))
+        else:
+            out.append(b)
+    return out
+
+
+def _spread_keyed_batch(rng):
+    """A keyed batch for sc.parallelize(data, n): some key has values in several partitions and the later partitions
+    hold more distinct keys than the earlier ones."""
+    hot = rng.randrange(4)
+    others = [x for x in range(4) if x != hot]
+    rng.shuffle(others)
+    n = rng.randint(2, 4)
+    data = [(hot, rng.randint(-5, 9)) for _ in range(rng.randint(1, 3))]
+    for i in range(1, n):
+        part = [(hot, None if rng.random() < 0.15 else rng.randint(-5, 9))] + [(o, rng.randint(-5, 9)) for o in others[:i]]
+        rng.shuffle(part)
+        data += part
+    return (0, n, data)
+
+
 def _random_case(rng):
-    knd = rng.choice([WINDOW, WINDOW, WINDOW, COUNT, COUNT, COUNT, STATE, STATE, STATE, STATE, BOTH, BOTH, COUNT_STATE])
+    knd = rng.choice([WINDOW, WINDOW, WINDOW, COUNT, COUNT, COUNT, STATE, STATE, STATE, STATE, BOTH, BOTH, COUNT_STATE,
+                      WIN_OVER, WIN_OVER, WIN_OVER, COUNT_OVER])
     nt = rng.randint(1, 8)
     nb = max(0, nt + rng.choice([-3, -2, -1, 0, 0, 0, 1]))
     w, s, uc, k = rng.randint(1, 4), rng.randint(1, 3), rng.randrange(NU), rng.randint(1, 3)
-    batches = _keyed_batches(rng, nb) if knd in (STATE, BOTH, COUNT_STATE) else _plain_batches(rng, nb)
+    pv = rng.randrange(len(PV_NAMES))
+    keyed = knd in (STATE, BOTH, COUNT_STATE) or (knd in (WIN_OVER, COUNT_OVER) and pv in PV_KEYED)
+    batches = _keyed_batches(rng, nb) if keyed else _plain_batches(rng, nb)
+    if keyed:
+        batches = [_spread_keyed_batch(rng) if b and rng.random() < 0.25 else b for b in batches]
+    batches = _as_rdd_entries(rng, [b for b in batches], keyed) if rng.random() < 0.6 else batches
+    if knd in (WIN_OVER, COUNT_OVER):
+        return (knd, w, s, uc, k, batches, _times(rng, nt), pv)
     return (knd, w, s, uc, k, batches, _times(rng, nt))
 
 
@@ -298,8 +475,13 @@ def _corpus():
 
 
 def _tuplify(c):
-    knd, w, s, uc, k, batches, times = c
-    return (knd, w, s, uc, k, [[tuple(x) if isinstance(x, (list, tuple)) else x for x in b] for b in batches], list(times))
+    def elems(b):
+        return [tuple(x) if isinstance(x, (list, tuple)) else x for x in b]
+
+    def entry(b):
+        return (b[0], b[1], elems(b[2])) if isinstance(b, tuple) else elems(b)
+    c = tuple(c)
+    return c[:5] + ([entry(b) for b in c[5]], list(c[6])) + c[7:]
 
 
 def generate(rng, tier):
@@ -332,6 +514,31 @@ def generate(rng, tier):
             cases.append((knd, w, s, 0, 2, [[1, 2], [], [3]], [1, 2, 3, 4, 5, 6, 7, 8]))
             cases.append((knd, w, s, 0, 1, [[], [], []], [1, 2, 3, 4, 5, 6]))
             cases.append((knd, w, s, 0, 1, [], [1, 2, 3, 4]))
+    # (a) batches that are RDDs with several partitions: a key with values in several partitions, later partitions with
+    #     more distinct keys, empty partitions, an RDD without elements; every (order-sensitive) update function
+    spread = [(0, 2, [(0, 1), (0, 2), (1, 3), (0, 4), (1, 5), (2, 6), (3, 7), (0, 8)]),
+              (0, 3, [(2, 1), (2, None), (0, 3), (2, 4), (1, 5), (3, 6), (0, 7), (2, 8), (1, 9)]),
+              (0, 4, [(1, 1)]),
+              (0, 3, []),
+              (0, 4, [(3, 2), (0, 3), (3, 4), (1, 5), (2, 6), (3, 7), (0, 8), (1, 9), (2, -1), (3, -2)])]
+    for uc in range(NU):
+        cases.append((STATE, 1, 1, uc, 1 + uc % 3, spread, [1, 2, 3, 4, 5, 6]))
+        cases.append((BOTH, 2, 1 + uc % 2, uc, 1, spread, [1, 2, 3, 4, 5, 6]))
+    for w, s in ((1, 1), (2, 1), (3, 2), (2, 3)):
+        parts = [(0, 3, [1, 2, 3, 4, 5]), (0, 4, [6]), (0, 2, []), (1, 2, [7, 8, 9]), (2, 3, [1, 2, 3, 4]), [5, 6]]
+        cases.append((WINDOW, w, s, 0, 2, parts, [1, 2, 3, 4, 5, 6, 7]))
+        cases.append((COUNT, w, s, 0, 1, parts, [1, 2, 3, 4, 5, 6, 7]))
+    # (b) windows over derived streams: every parent variant x (w, s), plain and RDD entries, queue running dry
+    plain7 = [[1, 2], [3], [], [4, 5, 6], (0, 3, [7, 8, 9, 10]), [11]]
+    keyed7 = [[(0, 1), (1, 2)], (0, 2, [(1, 3), (0, 4), (2, 5)]), [], [(2, None), (0, 6)], [(3, 7)]]
+    for pv in range(len(PV_NAMES)):
+        for w, s in ((1, 1), (2, 1), (3, 1), (2, 2), (3, 2), (4, 3), (1, 3)):
+            b = keyed7 if pv in PV_KEYED else plain7
+            ucs = range(NU) if (pv == 4 and (w, s) in ((2, 1), (3, 2))) else [(w + s + pv) % NU]
+            for uc in ucs:
+                cases.append((WIN_OVER, w, s, uc, 1 + (w + s) % 2, b, [1, 2, 3, 4, 5, 6, 7, 8], pv))
+                if (w + s) % 2 == 0 or pv == 5:
+                    cases.append((COUNT_OVER, w, s, uc, 1, b, [1, 2, 3, 4, 5, 6, 7, 8], pv))
     # the history of the repaired defect 7e069b7 (regression; also in corpus/C11) and its variant with slide 1
     cases.append((COUNT_STATE, 2, 2, 0, 1, [[(0, 1)], [(0, 2)], [(0, 3)], [(0, 4)]], [1, 2, 3, 4]))
     cases.append((COUNT_STATE, 2, 1, 0, 1, [[(0, 1)], [(0, 2)], [(0, 3)], [(0, 4)]], [1, 2, 3, 4]))
@@ -359,24 +566,36 @@ def generate(rng, tier):
 
 
 def shrink_candidates(c):
-    knd, w, s, uc, k, batches, times = c
+    knd, w, s, uc, k, batches, times, pv = _unpack(c)
+    tail = (pv,) if len(c) == 8 else ()
+
+    def mk(knd=knd, w=w, s=s, uc=uc, k=k, batches=batches, times=times, tail=tail):
+        return (knd, w, s, uc, k, batches, times) + tail
     if len(times) > 1:
-        yield (knd, w, s, uc, k, batches, times[:-1])
+        yield mk(times=times[:-1])
     if k > 1:
-        yield (knd, w, s, uc, 1, batches, times)
-        yield (knd, w, s, uc, k - 1, batches, times)
+        yield mk(k=1)
+        yield mk(k=k - 1)
     if len(batches) > 0:
-        yield (knd, w, s, uc, k, batches[:-1], times)
+        yield mk(batches=batches[:-1])
     for i, b in enumerate(batches):
-        for j in range(len(b)):
-            yield (knd, w, s, uc, k, batches[:i] + [b[:j] + b[j + 1:]] + batches[i + 1:], times)
+        if _is_rdd_entry(b):
+            form, n, data = b
+            yield mk(batches=batches[:i] + [_entry_data(b)] + batches[i + 1:])      # the same data as a plain list
+            if n > 2:
+                yield mk(batches=batches[:i] + [(form, n - 1, data)] + batches[i + 1:])
+            for j in range(len(data)):
+                yield mk(batches=batches[:i] + [(form, n, data[:j] + data[j + 1:])] + batches[i + 1:])
+        else:
+            for j in range(len(b)):
+                yield mk(batches=batches[:i] + [b[:j] + b[j + 1:]] + batches[i + 1:])
     if w > 1:
-        yield (knd, w - 1, s, uc, k, batches, times)
+        yield mk(w=w - 1)
     if s > 1:
-        yield (knd, w, s - 1, uc, k, batches, times)
+        yield mk(s=s - 1)
     if knd in (BOTH, COUNT_STATE):
-        yield (WINDOW, w, s, uc, k, batches, times)
-        yield (STATE, w, s, uc, k, batches, times)
+        yield mk(knd=WINDOW)
+        yield mk(knd=STATE)
     norm = list(range(1, len(times) + 1))
     if times != norm:
-        yield (knd, w, s, uc, k, batches, norm)
+        yield mk(times=norm)
